@@ -315,7 +315,11 @@ pub fn judge(
     let mut extra: HashMap<usize, Vec<(Option<String>, Desig)>> = HashMap::new();
     // every answer any designation of this run gives (to decide whether a check discriminates)
     for c in &o.convs {
-        first_inv.entry(c.worker).or_insert(c.inv_seq);
+        if c.first_on_worker {
+            // a fresh thread (first use, or respawned): nothing of the old thread's life counts
+            first_inv.insert(c.worker, c.inv_seq);
+            extra.remove(&c.worker);
+        }
         match &c.res {
             Res::Panic(p) => {
                 let rule = if p.starts_with("HANG") || p.contains("seam-call cap") { "R2-hang" } else { "R2-panic" };
